@@ -163,6 +163,10 @@ impl Bare {
             Err(_) => {}
         }
     }
+    /// top-up by the application: a refused buffer stays outside
+    fn provision_drop_refused(&mut self, size: usize) {
+        let _ = with_dec!(self.dec, d => d.provision_storage(vec![0u8; size.max(1)].into_boxed_slice()));
+    }
     fn decap(&mut self, bytes: &[u8]) -> RxRes {
         match with_dec!(self.dec, d => crate::core::guarded(|| d.decap(bytes))) {
             Ok(Ok((s, n))) => RxRes::Ok(s, n),
@@ -1396,6 +1400,26 @@ impl Scenario for Flow {
                         b.reset_last_label();
                     }
                 }
+                "prov" => {
+                    // the application tops the receiver's storage up (also while reassemblies are pending: the free
+                    // list can then be full although slots hold buffers)
+                    if let Ok(true) = rx.provision(maxpdu) {
+                        accepted_bufs += 1;
+                        ex.st.inc("probe.storage_topped_up_mid_run");
+                    } else {
+                        ex.st.inc("probe.top_up_refused_free_list_full");
+                        // a refused buffer stays with the application: it is not part of the receiver's storage
+                        rx.app.pop();
+                    }
+                    if let Some(w) = walker.as_mut() {
+                        if w.provision(maxpdu) != Ok(true) {
+                            w.app.pop();
+                        }
+                    }
+                    if let Some(b) = bare.as_mut() {
+                        b.provision_drop_refused(maxpdu);
+                    }
+                }
                 "enable" => {
                     enc.enable_re_use_label();
                     led.cfg(true, 0);
@@ -2145,6 +2169,12 @@ pub mod gen {
             if restart_run && !restarted && rng.chance(1, 3) {
                 let c: Vec<usize> = (0..left.len()).filter(|s| started[*s] && left[*s] > 0).collect();
                 if !c.is_empty() {
+                    // often with the free list topped up to its limit while the slots hold their buffers
+                    if rng.chance(1, 2) {
+                        for _ in 0..rng.usize_in(1, slots + 2) {
+                            ops.push(Op::new("prov"));
+                        }
+                    }
                     let s = *rng.pick(&c);
                     let fid = streams[s].0;
                     let retransmit = rng.chance(1, 2);
